@@ -117,6 +117,10 @@ DbApply(mu, db, sig) ==
         THEN [db EXCEPT ![t].idx =
                 (@ \ { <<ColsOf(sig[mu.m], sig[mu.m].ut[i]), TRUE>> : i \in 1..Len(sig[mu.m].ut) })
                 \cup { <<ColsOf(sig[mu.m], mu.val[i]), TRUE>> : i \in 1..Len(mu.val) }]
+        ELSE IF mu.prop = "indexes"
+        THEN [db EXCEPT ![t].idx =
+                (@ \ { <<ColsOf(sig[mu.m], sig[mu.m].idx[i].fields), FALSE>> : i \in 1..Len(sig[mu.m].idx) })
+                \cup { <<ColsOf(sig[mu.m], mu.ival[i].fields), FALSE>> : i \in 1..Len(mu.ival) }]
         ELSE db
     [] mu.k = "RenM" ->
         LET t1 == sig[mu.om].table
